@@ -115,3 +115,12 @@ def race_close_vs_send_handoff(case, mismatch):
 
 
 PREDICATES['race_close_vs_send_handoff'] = race_close_vs_send_handoff
+
+
+def lift_sibling_non_ascii(case, mismatch):
+    """Lift.tla rejected a string/byte sibling comparison (event sib) whose input text is not pure ASCII"""
+    ev = mismatch.get('event') or {}
+    return ev.get('e') == 'sib' and ev.get('b') is False and case['events'][0]['s'].startswith('strings~bytes.')
+
+
+PREDICATES['lift_sibling_non_ascii'] = lift_sibling_non_ascii
